@@ -121,3 +121,19 @@ pub use rank9::*;
 
 mod select9;
 pub use select9::*;
+
+/// Returns the word of given index of the backend of a bit vector of
+/// `num_bits` bits, clearing the bits beyond the length.
+///
+/// Nothing is assumed about the content of a backend beyond the length of the
+/// bit vector, so structures counting ones word by word must not look at it.
+#[inline(always)]
+pub(crate) fn masked_word(bits: &[usize], index: usize, num_bits: usize) -> usize {
+    let word = bits[index];
+    let residual = num_bits % usize::BITS as usize;
+    if residual != 0 && index == num_bits / usize::BITS as usize {
+        word & ((1 << residual) - 1)
+    } else {
+        word
+    }
+}
